@@ -650,7 +650,12 @@ def backoff_iter(start, stop, count=None, factor=2.0, jitter=False):
     if count is None:
         denom = start if start else 1
         # NB: the log is negative when start is 0 and stop < 1
-        count = 1 + max(0, math.ceil(math.log(stop/denom, factor)))
+        if math.isinf(stop / denom):
+            # the ratio is beyond the float range, its log is not
+            steps = math.log(stop, factor) - math.log(denom, factor)
+        else:
+            steps = math.log(stop / denom, factor)
+        count = 1 + max(0, math.ceil(steps))
         count = count if start else count + 1
     if count != 'repeat' and count < 0:
         raise ValueError('count must be positive or "repeat", not %r' % count)
